@@ -66,6 +66,7 @@ Section ListProofs.
     - inversion H; subst. apply Forall_imul. exact F.
     - destruct (slice_step sl =? 0); discriminate H.
     - discriminate H.
+    - discriminate H.
   Qed.
 
   (* ... and has exactly the length the TraitListObject override announced *)
@@ -116,6 +117,7 @@ Section ListProofs.
     - inversion AN; subst. inversion H; subst. apply imul_length.
     - discriminate AN.
     - discriminate AN.
+    - discriminate H.
   Qed.
 
   (* what a TraitList step leaves behind, read through C05's refinement theorem *)
@@ -460,20 +462,22 @@ Section DictProofs.
 
   Theorem dict_inv m o : DInv m -> DInv (do_after (dict_step kv vv m o)).
   Proof.
-    intros F. destruct o as [o|isd ps]; cbn [dict_step].
+    intros F. destruct o as [o|isd ps|ps kw]; cbn [dict_step].
     - unfold do_after, d_view. cbn [fst snd]. apply dict_step_P. exact F.
     - destruct isd; [|exact F]. destruct (vld_pairs kv vv (update_all ps [])) as [qs|] eqn:V; [|exact F].
       unfold do_after. cbn [fst snd]. apply F_update_all; [eapply vld_pairs_P; exact V|constructor].
+    - exact F.
   Qed.
 
   Theorem dict_failing_inert m o e :
     do_out (dict_step kv vv m o) = D.Raise e ->
     do_after (dict_step kv vv m o) = m /\ do_nev (dict_step kv vv m o) = 0%nat.
   Proof.
-    destruct o as [o|isd ps]; cbn [dict_step].
+    destruct o as [o|isd ps|ps kw]; cbn [dict_step].
     - unfold do_out, do_after, do_nev, d_view. cbn [fst snd]. intros H.
       destruct (dict_step_inert D.Plain m o e H) as [H1 H2]. rewrite H1, H2. auto.
     - destruct isd; [|cbn; auto]. destruct (vld_pairs kv vv (update_all ps [])); cbn; [discriminate|auto].
+    - cbn. auto.
   Qed.
 
   Theorem dict_inv_reachable : forall ops m, DInv m ->
@@ -539,10 +543,11 @@ Section DictLawProofs.
     destruct (do_out (dict_step kv vv m o)) as [|e] eqn:EO.
     - cbn [d_is_trait_error d_is_raise negb orb chk app].
       assert (forallb (fun p => kacc (fst p) && vacc (snd p)) (do_offered m o) = true) as ->; [|reflexivity].
-      destruct o as [o|isd ps]; cbn [do_offered dict_step] in *.
+      destruct o as [o|isd ps|ps kw]; cbn [do_offered dict_step] in *.
       + apply (dict_success_acc D.Plain). exact EO.
       + destruct isd; [|discriminate]. destruct (vld_pairs kv vv (update_all ps [])) eqn:V; [|discriminate].
         eapply vld_pairs_acc. exact V.
+      + discriminate EO.
     - destruct (dict_failing_inert kv vv m o e EO) as [HA HE]. rewrite HA, HE, mapeq_refl.
       cbn. rewrite !orb_true_r. destruct e; reflexivity.
   Qed.
